@@ -1,5 +1,6 @@
 import NfpmModel.Contents
 import NfpmModel.Payload
+import NfpmModel.Version
 /-
   Wire format shared by the driver and the Go harness: one request per line,
   space separated tokens; byte strings are lower-case hex ("-" = empty),
@@ -199,6 +200,18 @@ def showMember (m : Member) : String :=
 
 def showMembers (l : List Member) : String :=
   s!"{l.length}" ++ String.join (l.map (fun m => " " ++ showMember m))
+
+def pVInfo : P VInfo := do
+  let name ← pBytes
+  let arch ← pBytes
+  let epoch ← pBytes
+  let version ← pBytes
+  let schema ← pBytes
+  let release ← pBytes
+  let prerelease ← pBytes
+  let metadata ← pBytes
+  let archOverride ← pBytes
+  pure { name, arch, epoch, version, schema, release, prerelease, metadata, archOverride }
 
 def showBytesList (l : List Bytes) : String :=
   s!"{l.length}" ++ String.join (l.map (fun b => " " ++ hex b))
